@@ -76,5 +76,5 @@ __CPROVER_ensures(/* two other nodes of one tree: what the DOM support says */ (
     ],
     mechanisms=['ordered de-duplicating insert of MutableNodeRefList (predicates)'],
     assumptions=['the document node (fragment root) has a smaller index than every other node of its tree (XalanSourceTreeDocument::getIndex() is 1, nodes start at 2; read)',
-                 'nodes of different documents are only required to go "after" (the relative order of documents is implementation-defined; multi-document interleaving F15 is not covered)'],
+                 'nodes of different documents are only required to go "after" (the relative order of documents is implementation-defined; that the nodes of one document stay together is proved in c12_search: linsearch + documents_lemma, after fix F33)'],
 )
